@@ -1,23 +1,43 @@
 #!/venv/bin/python
-"""One-off generator of hv/gates.json (run on the repaired tree, output reviewed by hand and committed).
+"""One-off generator of hv/gates.json (run on the repaired tree; output reviewed by hand and committed).
 
-For every base return that solves, every single deviation (E3 alphabet) that turns it into a return that fails with an
-unimplemented line or aborts on a deliberately absent form is a *declared unsupported situation in that context*.
-The frozen table is what C09 replays: a later change that lets one of these returns solve is a dropped gate."""
-import json, os, sys
+entries:   for every base return that solves, every single deviation of a boolean input, or of one of the listed amount /
+           count gates, that turns it into a return failing with an unimplemented line or aborting on a deliberately
+           absent form: a *declared unsupported situation in that context* (C09 part B replays these).
+refusing:  (year, line, boolean input) pairs such that EVERY explored execution of the line definition in which the input
+           is read as True ends in not-implemented / an absent form (E4, d<=2): the line is a gate on that input
+           (C09 part A: such a line reading yes never coexists with a solved verdict)."""
+import fnmatch, json, os, sys
 sys.path.insert(0, '/verif')
 os.environ.setdefault('HABUTAX_VERIF', '1')
 import hv
-from hv import e3, world, runner
+from hv import e3, e4, world, runner
 from habutax import inputs as hi
+from habutax.forms import available_forms
+
+AMOUNT_GATES = ['1099-int:*.box_6', '1099-div:*.box_7', '1040.number_1099-int', '1040.number_1099-div', '1040.number_1099-oid',
+                '8889:*.hsa_contributions', '8889:*.employer_contribution', '1040_s1.educator_expenses',
+                '1040_sa.charitable_other_than_cash_check', '8889:*.archer_msa']
 
 
 def work(arg):
     year, bname, n, alt = arg
     base = e3.base_by_name(bname, year)
     r, asked = e3.run_return(year, base, {n: alt})
-    consulted = any(a[0] == n for a in asked)
-    return r.outcome_class(), sorted(r.unimpl)[:3], (r.exc or ('', ''))[1][:60], consulted
+    return r.outcome_class(), sorted(r.unimpl)[:3], (r.exc or ('', ''))[1][:60]
+
+
+def e4work(arg):
+    year, ci, inst, li = arg
+    C = available_forms[year][ci]
+    col = []
+    r = e4.explore_line(year, C, inst, li, 2, 3000, collect=col)
+    seen = {}
+    for memo, out in col:
+        for (kind, name), val in memo.items():
+            if kind == 'i' and val is True:
+                seen.setdefault(name, set()).add(out[0])
+    return r['line'], {n: sorted(o) for n, o in seen.items()}
 
 
 out = []
@@ -26,9 +46,22 @@ for year in (2021, 2022, 2023):
         r, asked = e3.run_return(year, base, {})
         if not r.verdict:
             continue
-        items = [(year, base.name, n, alt) for n, a, alts in asked for alt in alts]
-        for (y, b, n, alt), (oc, un, msg, cons) in zip(items, runner.pmap(work, items)):
+        items = []
+        for n, a, alts in asked:
+            for alt in alts:
+                if alt in ('yes', 'no') or any(fnmatch.fnmatchcase(n, p) for p in AMOUNT_GATES):
+                    items.append((year, base.name, n, alt))
+        for (y, b, n, alt), (oc, un, msg) in zip(items, runner.pmap(work, items)):
             if oc.startswith('failed:U') or (oc == 'abort:NotImplementedError' and 'is not supported' in msg):
+                if un == ['1040.27'] and alt not in ('yes', 'no'):
+                    continue      # the earned income credit became possible: not a declaration
                 out.append(dict(year=y, base=b, input=n, value=alt, outcome=oc, unimplemented=un, message=msg))
-json.dump(dict(entries=out), open('/verif/hv/gates.json', 'w'), indent=0)
-print(len(out), 'gate contexts;', len(set((e['year'], e['input'], e['value']) for e in out)), 'distinct (year, input, value)')
+items = e4.work_items()
+refusing = []
+for (year, ci, inst, li), (line, seen) in zip(items, runner.pmap(e4work, items)):
+    for n, outs in seen.items():
+        if set(outs) <= {'not-implemented', 'absent-form'}:
+            refusing.append([year, line, n])
+json.dump(dict(entries=out, refusing=sorted(refusing)), open('/verif/hv/gates.json', 'w'), indent=0)
+print(len(out), 'gate contexts;', len(set((e['year'], e['input'], e['value']) for e in out)), 'distinct (year, input, value);',
+      len(refusing), 'refusing (year, line, input) pairs')
